@@ -127,6 +127,9 @@ IsGradView(h) == S.nodes[S.hd[h].n].kind = "gradview"
 
 JudgeBackward(e) ==
   IF IsGradView(e.args[1]) THEN Unspec      \* identity of fetched gradient arrays is not specified
+  \* a caller-held borrow of a gradient slot may make the pass panic (then the state is not specified); if it
+  \* returns normally it must have done the whole job
+  ELSE IF e.panic /\ Has(e, "hold") THEN Unspec
   ELSE IF e.panic THEN Bad(IF e.budget_left < 0 THEN "eval-budget-exhausted" ELSE "backward-panic") ELSE
   LET h == e.args[1]
       root == S.hd[h].n
